@@ -38,7 +38,11 @@ def plan(pid, tier):
         if not q:
             jobs = [arena_job("histories-core-d3-dev2", "core", 1, 3, 2, 300, tier), arena_job("histories-core-d4", "core", 1, 4, 1, 500, tier, min_aligns="1,8,16"),
                     arena_job("histories-core-d3-dbg", "core", 1, 3, 1, 200, tier, build="dbg"), arena_job("layerA-every-offset-dev2", "layera", 1, 3, 2, 400, tier), arena_job("allocator-api-sweep-dev1", "apisweep", 1, 5, 1, 600, tier)]
-        return {"level": "model_checking", "jobs": jobs, "owns_crashes": True, "rule": RULE_ARENA, "assumptions": ARENA_ASSUME,
+        sc = [{"name": "stateright-crosscheck-core-d2", "bin": "xcheck", "args": ["--profile", "core", "--depth", "2"]}]
+        if not q:
+            sc += [{"name": "stateright-crosscheck-core-d3", "bin": "xcheck", "args": ["--profile", "core", "--depth", "3"]}, {"name": "stateright-crosscheck-reset-d3", "bin": "xcheck", "args": ["--profile", "reset", "--depth", "3"]},
+                   {"name": "stateright-crosscheck-allocapi-d3", "bin": "xcheck", "args": ["--profile", "allocapi", "--depth", "3"]}, {"name": "stateright-crosscheck-limit-d3", "bin": "xcheck", "args": ["--profile", "limit", "--depth", "3"]}]
+        return {"level": "model_checking", "jobs": jobs, "owns_crashes": True, "rule": RULE_ARENA, "assumptions": ARENA_ASSUME, "selfchecks": sc,
                 "bounds": {"depth": 3 if q else 4, "deviations": 1 if q else 2, "min_align": [1, 2, 4, 8, 16]}, "build_profiles": ("release",) if q else ("release", "dbg")}
     if pid == "C02":
         jobs = [arena_job("histories-core", "core", 2, 3, 1, 45 if q else 600, tier), arena_job("allocator-api-sweep", "apisweep", 2, 5, 0, 40, tier)]
